@@ -58,6 +58,8 @@ class ConvRun:
         from factorysimpy.helper.item import Item
         env = self.env
         il = self.case["conv"].get("il", 1)
+        if self.case.get("t0"):
+            yield env.timeout(self.case["t0"])
         for i, w in enumerate(self.case[k_script]):
             yield env.timeout(w)
             t_req = env.now
@@ -87,6 +89,8 @@ class ConvRun:
         env = self.env
         chold = self.case.get("chold")
         ccancel = self.case.get("ccancel")
+        if self.case.get("t0"):
+            yield env.timeout(self.case["t0"])
         for j, w in enumerate(self.case["consumer"]):
             yield env.timeout(w)
             self.req_get.append(env.now)
@@ -122,7 +126,8 @@ class ConvRun:
 
     def run(self):
         env = self.env
-        T = self.case.get("T", 100.0)
+        t0 = self.case.get("t0") or 0.0
+        T = self.case.get("T", 100.0) + t0
         n_inst = 0
         while True:
             t = env.peek()
@@ -149,4 +154,17 @@ class ConvRun:
         for (t, it) in self.t_get:
             if id(it) not in self.t_offer or self.t_offer[id(it)] > t:
                 self.t_offer[id(it)] = t
+        if t0:
+            # the scripts started at t0: report every instant relative to it (the conveyor's behaviour must not depend on
+            # the absolute clock value); comparisons then need a tolerance of a few float spacings at t0
+            self.req_put = [x - t0 for x in self.req_put]
+            self.t_put = [x - t0 for x in self.t_put]
+            self.req_get = [x - t0 for x in self.req_get]
+            self.t_get = [(x - t0, it) for (x, it) in self.t_get]
+            self.t_offer = {k: v - t0 for k, v in self.t_offer.items()}
+            self.t_cancel_put = [x - t0 for x in self.t_cancel_put]
+            self.t_cancel_get = [x - t0 for x in self.t_cancel_get]
+            self.t_grant_get = [x - t0 for x in self.t_grant_get]
+            if self.occ_gt_cap is not None:
+                self.occ_gt_cap = (self.occ_gt_cap[0] - t0, self.occ_gt_cap[1])
         return self
